@@ -174,11 +174,11 @@ func cmdCheck(propFile, tier string) int {
 			fr := verifyFuncWithFindings(w, key, findings, pf.ID)
 			frs = append(frs, fr)
 		}
-		timeout := 10
+		timeout := 25
 		if tier == "thorough" {
-			timeout = 60
+			timeout = 90
 		}
-		solveAll(scratch, frs, timeout, tier == "thorough", 10)
+		solveAll(scratch, frs, timeout, tier == "thorough", 8)
 	}
 
 	// evaluate
